@@ -19,6 +19,7 @@ cd /verif
 for c in "$@"; do
   VT_REPO=$w ./check "$c" --tier ${TIER:-quick} 2>&1 | grep -v Warning > /dev/shm/sr-$$.$c.log
   nv=$(grep -c '^VIOLATION' /dev/shm/sr-$$.$c.log)
+  grep -m1 -A3 '^HARNESS-ERROR' /dev/shm/sr-$$.$c.log | cut -c1-300
   echo "check $c: violations=$nv  $(grep -m1 -A1 '^VIOLATION' /dev/shm/sr-$$.$c.log | tail -1 | cut -c1-200)  | $(grep -E "^$c (quick|thorough)" /dev/shm/sr-$$.$c.log | cut -c1-160)"
 done
 rm -f /dev/shm/sr-$$.*
